@@ -598,44 +598,89 @@ func runResumeReport(c *Ctx) {
 						// one further conjunct is sound: `<verified chunk> < F` where F is the value stored into resumePlan.forceSendFrom -
 						// when it does not hold the chunk lies in the force-send range and goes out with the ordinary schedule
 						// (which hands nothing out before the verdict); an explicit re-send would dispatch it twice (F43)
-						if len(extra) == 1 {
-							for _, a := range Implied(inner.Cond, true) {
-								be, ok := ast.Unparen(a.E).(*ast.BinaryExpr)
-								if !ok || !a.Val || (be.Op != token.LSS && be.Op != token.GTR) {
-									continue
+						if len(extra) > 0 {
+							// the chunk that was hashed: what is assigned to resendChunk inside the branch
+							chunkText := ""
+							ast.Inspect(inner.Body, func(m ast.Node) bool {
+								if a2, ok := m.(*ast.AssignStmt); ok && len(a2.Lhs) == 1 && len(a2.Rhs) == 1 {
+									if sel, ok := ast.Unparen(a2.Lhs[0]).(*ast.SelectorExpr); ok && sel.Sel.Name == "resendChunk" {
+										chunkText = types.ExprString(ast.Unparen(a2.Rhs[0]))
+									}
 								}
-								if be.Op == token.GTR { // F > v
-									be = &ast.BinaryExpr{X: be.Y, Op: token.LSS, Y: be.X}
-								}
-								fo := ObjOf(g.Info(), be.Y)
-								if fo == nil {
-									continue
-								}
-								inPlan := false
-								for h := g; h != nil; h = h.Parent {
+								return true
+							})
+							// storedInPlan: o is the value of key `field` in a resumePlan literal of g or its parents
+							storedInPlan := func(o types.Object, field string) bool {
+								hit := false
+								for h := g; h != nil && o != nil; h = h.Parent {
 									ast.Inspect(h.Body, func(m ast.Node) bool {
 										if kv, ok := m.(*ast.KeyValueExpr); ok {
-											if k, ok := kv.Key.(*ast.Ident); ok && k.Name == "forceSendFrom" && ObjOf(h.Info(), kv.Value) == fo {
-												inPlan = true
+											if k, ok := kv.Key.(*ast.Ident); ok && k.Name == field && ObjOf(h.Info(), kv.Value) == o {
+												hit = true
 											}
 										}
 										return true
 									})
 								}
-								// the left side is the chunk that was hashed: the argument of hashFileChunk / the chunk assigned to resendChunk
-								sameChunk := false
-								ast.Inspect(inner.Body, func(m ast.Node) bool {
-									if a2, ok := m.(*ast.AssignStmt); ok && len(a2.Lhs) == 1 && len(a2.Rhs) == 1 {
-										if sel, ok := ast.Unparen(a2.Lhs[0]).(*ast.SelectorExpr); ok && sel.Sel.Name == "resendChunk" && types.ExprString(a2.Rhs[0]) == types.ExprString(be.X) {
-											sameChunk = true
+								return hit
+							}
+							sound := func(a Atom) bool {
+								if !a.Val || chunkText == "" {
+									return false
+								}
+								switch x := ast.Unparen(a.E).(type) {
+								case *ast.BinaryExpr:
+									l, op, r := x.X, x.Op, x.Y
+									switch op {
+									case token.GTR: // F > v  ==  v < F
+										l, op, r = r, token.LSS, l
+									case token.LEQ: // n <= v  ==  v >= n
+										l, op, r = r, token.GEQ, l
+									}
+									if types.ExprString(ast.Unparen(l)) != chunkText {
+										return false
+									}
+									// v < F, F the value stored into resumePlan.forceSendFrom: otherwise the chunk lies in the force-send range and goes out
+									// with the ordinary schedule, which hands nothing out before the verdict; an explicit re-send would dispatch it twice (F43)
+									if op == token.LSS && storedInPlan(ObjOf(g.Info(), r), "forceSendFrom") {
+										return true
+									}
+									// v >= <state>.nextChunk: otherwise the schedule has handed the chunk out already (a report that came after the grace
+									// period finds chunks sent without a plan) - it went out fresh from the source, a re-send would be a second dispatch,
+									// possibly behind the end-of-file record (F53)
+									if op == token.GEQ {
+										if sel, ok := ast.Unparen(r).(*ast.SelectorExpr); ok && sel.Sel.Name == "nextChunk" {
+											if t := g.Info().TypeOf(sel.X); t != nil && strings.HasSuffix(strings.TrimPrefix(t.String(), "*"), "transfer.sendFileState") {
+												return true
+											}
 										}
 									}
-									return true
-								})
-								if inPlan && sameChunk && types.ExprString(a.E) == strings.TrimSuffix(strings.TrimPrefix(extra[0], "!("), ")") {
-									extra = nil
+								case *ast.CallExpr:
+									// B.Get(int(v)), B the bitmap stored into resumePlan.bitmap: the schedule skips only chunks whose bit is set in that
+									// very bitmap, so without the bit the chunk goes out with the schedule (F53)
+									sel, ok := ast.Unparen(x.Fun).(*ast.SelectorExpr)
+									if !ok || sel.Sel.Name != "Get" || len(x.Args) != 1 || !storedInPlan(ObjOf(g.Info(), sel.X), "bitmap") {
+										return false
+									}
+									return types.ExprString(StripConv(g.Info(), x.Args[0])) == chunkText
+								}
+								return false
+							}
+							var left []string
+							for _, a := range Implied(inner.Cond, true) {
+								if id, _, ok := mis.Vias[0].Cond(g, a.E); ok && id == "mismatch" {
+									continue
+								}
+								if sound(a) {
+									continue
+								}
+								if a.Val {
+									left = append(left, types.ExprString(a.E))
+								} else {
+									left = append(left, "!("+types.ExprString(a.E)+")")
 								}
 							}
+							extra = left
 						}
 						c.Check(len(extra) == 0, "hash-repair/mismatch-alone-decides", inner.Pos(), "every hash mismatch schedules the re-send (or leaves the chunk to the force-send range)",
 							"a verification-hash mismatch schedules the re-send only if also "+strings.Join(extra, " && ")+": when that does not hold the damaged chunk is neither re-sent explicitly nor (for a file reported all-complete, where no tail is forced) with the schedule, FileEnd goes out and both sides report success")
